@@ -32,7 +32,21 @@ def one(job):
     logging.disable(logging.CRITICAL)
     seed, ntls, nquic, pattern = job
     rng = random.Random(seed)
-    mx = e2e.Mixed(rng, [e2e.random_combo(rng) for _ in range(ntls)], n_quic=nquic, pattern=pattern)
+    combos, hook, mpat = None, None, pattern
+    if pattern == "resumed":
+        # session resumption (RFC 5246 7.3 abbreviated handshake / RFC 5077 tickets): several connections up to TLS 1.2 share ONE
+        # master secret with fresh randoms each; the key log holds one CLIENT_RANDOM line per connection, all with that secret
+        want = "tls12" if rng.random() < 0.7 else rng.choice(["ssl3", "tls10", "tls11"])
+        combo = e2e.random_combo(rng)
+        while combo[1] != want:
+            combo = e2e.random_combo(rng)
+        master = rng.randbytes(48)
+        combos, hook, mpat = [combo] * ntls, (lambda r, v: {"master": master}), "same-hosts"
+    elif pattern == "crowd":
+        mpat = "random"                  # many connections alive at once (more than any small fixed table of sessions)
+    if combos is None:
+        combos = [e2e.random_combo(rng) for _ in range(ntls)]
+    mx = e2e.Mixed(rng, combos, n_quic=nquic, pattern=mpat, shape_hook=hook)
     kl = mx.keylog_text()
     r = tool.run(mx.capture(), kl)
     fails = []
@@ -100,6 +114,10 @@ def explore(ctx, scale=1):
         if ntls + nquic < 2:
             ntls += 1
         jobs.append((rng.getrandbits(48), ntls, nquic, pattern))
+    for k in range(2 * scale if not ctx.thorough() else 12):
+        jobs.append((rng.getrandbits(48), 2 + k % 3, k % 2, "resumed"))
+    for k in range(1 * scale if not ctx.thorough() else 4):
+        jobs.append((rng.getrandbits(48), 66 + 7 * k, 0, "crowd"))
     results = tool.pmap(one, jobs, procs=16 if ctx.thorough() else 8)
     o = ctx.oracle.setdefault("merged-vs-solo", {"runs": 0, "violations": 0})
     for job, (fails, desc, blob, switches) in zip(jobs, results):
